@@ -177,11 +177,79 @@ fn first_route_len(scn: &Value) -> usize {
     }
 }
 
+/// outcome of ONE plain search of the underlying algorithm (forward from the origin, or reverse from the destination)
+/// under the scenario's limits - what the alternatives algorithm's own sub-searches will meet
+fn plain_outcome(scn: &Value, reverse: bool) -> String {
+    match build_instance(scn) {
+        Ok(b) => {
+            let (s, d) = (VertexId(ju(&scn["src"]) - 1), VertexId(ju(&scn["dst"]) - 1));
+            let r = if reverse {
+                underlying(scn).run_vertex_oriented(d, Some(s), &json!({}), &Direction::Reverse, &b.si)
+            } else {
+                underlying(scn).run_vertex_oriented(s, Some(d), &json!({}), &Direction::Forward, &b.si)
+            };
+            outcome_of(&r).0
+        }
+        Err(_) => String::from("build_error"),
+    }
+}
+
+fn limited(scn: &Value) -> bool {
+    ji(&scn["itl"]) >= 0 || ji(&scn["szl"]) >= 0
+}
+
 fn run_scenario(out: &mut Out, scn: &Value, idx: usize) {
     out.scenario(scn);
     out.event(setup_of(scn));
-    let ev = if scn["kalg"] == "yens" { run_in_child(scn, idx, Duration::from_secs(5)) } else { result_event(scn) };
+    if scn["yen_limits"].as_bool().unwrap_or(false) {
+        // Yen's algorithm under a limit against the same query without it (both in child processes): a limited run
+        // either ends 'terminated' or returns exactly what the unlimited run returns
+        let mut unl = scn.clone();
+        unl["itl"] = json!(-1);
+        unl["szl"] = json!(-1);
+        let a = run_in_child(&unl, 2 * idx, Duration::from_secs(5));
+        let b = run_in_child(scn, 2 * idx + 1, Duration::from_secs(5));
+        out.event(json!({"ev": "KLimit", "unl_outcome": a["outcome"], "unl_routes": a["routes"], "lim_outcome": b["outcome"],
+                         "lim_routes": b["routes"], "lim_msg": b["msg"]}));
+        return;
+    }
+    let mut ev = if scn["kalg"] == "yens" { run_in_child(scn, idx, Duration::from_secs(5)) } else { result_event(scn) };
+    // single-via under limits: what its two sub-searches meet, from separate plain runs
+    ev["fwd_out"] = json!(if limited(scn) { plain_outcome(scn, false) } else { String::from("ok") });
+    ev["rev_out"] = json!(if limited(scn) { plain_outcome(scn, true) } else { String::from("ok") });
     out.event(ev);
+}
+
+/// scenarios for Yen's algorithm under limits: accept-all similarity and a shortest route of at least three edges (outside
+/// the trigger conditions of the recorded findings that never return), k = 2..3, an iteration or size limit of the order
+/// of what one sub-search needs
+fn gen_yen_limits(r: &mut StdRng, maxv: usize) -> Option<Value> {
+    let mut s = gen(r, maxv);
+    s["kalg"] = json!("yens");
+    s["orient"] = json!("vertex");
+    s["sim"] = json!({"type": "accept_all", "p": 0, "explicit": r.gen_bool(0.5)});
+    s["term"] = json!({"type": "default", "n": 0});
+    let k = r.gen_range(2..=3);
+    s["k"] = json!(k);
+    s["kcfg"] = json!(k);
+    s["k_src"] = json!("cfg");
+    if first_route_len(&s) < 3 {
+        return None;
+    }
+    // limits just above what the first (plain) search needs, so that the query gets past it and a later sub-search (with
+    // cut edges) may be the one that is stopped
+    let b = build_instance(&s).ok()?;
+    let first = underlying(&s)
+        .run_vertex_oriented(VertexId(ju(&s["src"]) - 1), Some(VertexId(ju(&s["dst"]) - 1)), &json!({}), &Direction::Forward, &b.si)
+        .ok()?;
+    let (it0, sz0) = (first.iterations as i64, first.trees.first().map(|t| t.len()).unwrap_or(0) as i64);
+    if r.gen_bool(0.6) {
+        s["itl"] = json!(it0 + r.gen_range(0..=3));
+    } else {
+        s["szl"] = json!(sz0 + r.gen_range(0..=2));
+    }
+    s["yen_limits"] = json!(true);
+    Some(s)
 }
 
 fn gen(r: &mut StdRng, maxv: usize) -> Value {
@@ -199,6 +267,15 @@ fn gen(r: &mut StdRng, maxv: usize) -> Value {
     s["rtx"] = json!(false);
     s["sleep_at"] = json!(0);
     s["veh_on"] = json!(false);
+    // a sixth of the single-via queries run under an iteration / size limit (each of its two sub-searches meets it)
+    if r.gen_bool(0.17) {
+        let nv = nv as i64;
+        if r.gen_bool(0.6) {
+            s["itl"] = json!(r.gen_range(0..=(nv + 1)));
+        } else {
+            s["szl"] = json!(r.gen_range(0..=nv));
+        }
+    }
     // underlying: Dijkstra, or A* with weight factor 1 (admissible on the metric networks only)
     let metric_ok = s["wf"].as_i64().unwrap_or(0) <= 1000;
     if s["alg"] == "astar" && !metric_ok {
@@ -278,6 +355,20 @@ pub fn main(args: &[String]) -> i32 {
     } else {
         let n = arg_usize(args, "--random", 200);
         let maxv = arg_usize(args, "--maxv", 8);
+        let ny = arg_usize(args, "--yen-limits", 0);
+        if ny > 0 {
+            let mut r = rng(14);
+            let (mut made, mut tries) = (0, 0);
+            while made < ny && tries < 200 * ny {
+                tries += 1;
+                if let Some(s) = gen_yen_limits(&mut r, maxv) {
+                    guarded(&mut out, |o| run_scenario(o, &s, made));
+                    made += 1;
+                }
+            }
+            out.flush();
+            return 0;
+        }
         let mut r = rng(13);
         for i in 0..n {
             let s = gen(&mut r, maxv);
